@@ -24,7 +24,26 @@ def prepare(prog):
         extract_block(prog, f"{MT}:jitter_command", "jitter_arith", j_start, j_in, ["rng", "original", "delta"], "jittered")
     except KeyError:
         pass
+    try:
+        prepare_order(prog)
+    except KeyError:
+        pass        # jitter_order is then reported as unreachable on its own
     return extract_block(prog, f"{MT}:snap_command", "snap_arith", is_start, belongs, ["original", "ticks_per_second"], "snapped")
+
+
+def prepare_order(prog):
+    """whatever jitter_command does, at the top level of its body, between the `with` that reads the input file and the `with`
+    that writes the output file (on the pinned tree: `pipelines.sort(key=lambda x: x[0])`) as jitter_order(pipelines, delta)"""
+    from pyvc.extract import extract_block
+    fn = prog.func(f"{MT}:jitter_command")
+    withs = [k for k, st in enumerate(fn.body) if isinstance(st, ast.With)]
+    rd = [k for k in withs if any(getattr(it.optional_vars, "id", None) == "infile" for it in fn.body[k].items)]
+    wr = [k for k in withs if any(getattr(it.optional_vars, "id", None) == "outfile" for it in fn.body[k].items)]
+    if len(rd) != 1 or len(wr) != 1 or not rd[0] + 1 < wr[0]:
+        raise KeyError("eudoxia.tools:jitter_command: no statements between reading the input and writing the output (contract attachment lost)")
+    block = fn.body[rd[0] + 1:wr[0]]
+    return extract_block(prog, f"{MT}:jitter_command", "jitter_order", lambda st: st is block[0], lambda st: any(st is b for b in block),
+                         ["pipelines", "delta"], "pipelines")
 
 
 def prepare_tasks(prog):
@@ -89,3 +108,19 @@ def declare(S: Spec):
          requires=["rng is not None", "delta >= 0"],
          ensures=[("never-earlier", "result >= original"), ("by-at-most-delta", "result - original <= delta")],
          modifies=[], note="extracted from jitter_command: the draw and the addition (real arithmetic)")
+
+
+def declare2(S: Spec):
+    # jitter: the pipelines (arrival, rows) between reading and writing; the rows of a pipeline are opaque here
+    S.cls("RowGroup", {})
+    PL = List(Tuple(REAL, Ref("RowGroup")))
+    S.fn(f"{MT}:jitter_order", owners=["C20"], params={"pipelines": PL, "delta": REAL}, returns=PL,
+         requires=["pipelines is not None", "delta >= 0"],
+         ensures=[("written-in-ascending-arrival-order",
+                   "all(all(implies(i < j, result[i][0] <= result[j][0]) for j in range(0, len(result))) for i in range(0, len(result)))"),
+                  ("every-pipeline-kept-none-added",
+                   "len(result) == old(len(pipelines)) and all(p in result for p in old(seq(pipelines))) and all(p in old(seq(pipelines)) for p in result)"),
+                  ("the-list-that-is-written", "result is pipelines")],
+         modifies=["contents(pipelines)"],
+         note="extracted from jitter_command: the statements between reading and writing, for every delta >= 0; list.sort is an assumed "
+              "contract (sorted permutation); that the writing loop emits `pipelines` in list order is checked natively (bounded)")
